@@ -5,7 +5,7 @@
    and SPF have no Coq model: they are covered by the implementation-vs-grammar run of harness/c18.py.  Statements only. *)
 From Coq Require Import ZArith List Bool String Permutation.
 From Coq.Strings Require Import Byte.
-From CP Require Import Core.Bytes Core.Result Text.Field Spec.FieldSpec Lemmas.FieldLemmas Lemmas.FvmLemmas Lemmas.FieldTables Lemmas.StsLemmas.
+From CP Require Import Core.Bytes Core.Result Text.Field Spec.FieldSpec Lemmas.FieldLemmas Lemmas.FvmLemmas Lemmas.FieldTables Lemmas.StsLemmas Text.Cookie Lemmas.CookieLemmas.
 From CPGen Require Import Tables.
 Import ListNotations.
 Open Scope Z_scope.
@@ -143,3 +143,25 @@ Theorem C18_sts_example :
   sts_parse (list_byte_of_string "PRELOAD	; ;  foo=bar;MAX-AGE=""31536000"" ;includesubdomains;") = Ok (31536000, true, true)
   /\ sts_parse (list_byte_of_string "max-age=31536000; includeSubDomains; preload") = Ok (31536000, true, true).
 Proof. exact sts_example. Qed.
+
+(* Set-Cookie: white space around the name and the value of the cookie pair is insignificant (RFC 6265 section 5.2): every
+   spelling gives the trimmed name, the trimmed value and the same remainder for the attribute-list parser; two spellings of
+   one pair agree.  The value must not start with "=": the implementation takes a run of "=" as one separator (cookie_value_leading_equals
+   in Lemmas/CookieLemmas.v; recorded as a finding of C01) *)
+Theorem C18_cookie_pair_spelled : forall w1 n w2 w3 v w4 rest,
+  all_ws w1 = true -> all_ws w2 = true -> all_ws w3 = true -> all_ws w4 = true ->
+  no_sep EQS n = true -> no_sep SEMI v = true -> head_not EQS v = true ->
+  cookie_pair (w1 ++ n ++ w2 ++ EQS :: w3 ++ v ++ w4 ++ SEMI :: rest) = Ok (strip n, strip v, cookie_rest (SEMI :: rest)).
+Proof. exact cookie_pair_spelled. Qed.
+Theorem C18_cookie_pair_spelled_at_the_end : forall w1 n w2 w3 v w4,
+  all_ws w1 = true -> all_ws w2 = true -> all_ws w3 = true -> all_ws w4 = true ->
+  no_sep EQS n = true -> no_sep SEMI v = true -> head_not EQS v = true ->
+  cookie_pair (w1 ++ n ++ w2 ++ EQS :: w3 ++ v ++ w4) = Ok (strip n, strip v, []).
+Proof. exact cookie_pair_spelled_end. Qed.
+Theorem C18_cookie_pair_spellings_agree : forall w1 w2 w3 w4 u1 u2 u3 u4 n v rest,
+  all_ws w1 = true -> all_ws w2 = true -> all_ws w3 = true -> all_ws w4 = true ->
+  all_ws u1 = true -> all_ws u2 = true -> all_ws u3 = true -> all_ws u4 = true ->
+  no_sep EQS n = true -> no_sep SEMI v = true -> head_not EQS v = true ->
+  cookie_pair (w1 ++ n ++ w2 ++ EQS :: w3 ++ v ++ w4 ++ SEMI :: rest) =
+  cookie_pair (u1 ++ n ++ u2 ++ EQS :: u3 ++ v ++ u4 ++ SEMI :: rest).
+Proof. exact cookie_pair_spellings_agree. Qed.
